@@ -655,3 +655,101 @@ def axis_arg_family(repo, col, shorts):
                             "is combined with one of the output ordering"
                             % "/".join(typed), node=c)
     return n
+
+
+def shard_protocol_guards(repo, col):
+    """Guards of the minishard append protocol, the reader's id match and the
+    exact length of the shard index."""
+    from .dataflow import raise_guards
+    rule = "E-BOUND.shard-protocol"
+    # 1. a chunk below the next expected id is refused; only the expected id
+    #    is appended
+    cba = repo.func("sharded_file_accessor", "MiniShard.can_be_appended")
+    late = False
+    for g, atoms in raise_guards(cba.node):
+        for a in atoms:
+            l, r = norm(a.left), norm(a.right)
+            if {l, r} == {"self.next_cmc", cba.params[-1]}:
+                # fall-through must allow next == cmc and forbid next > cmc
+                if (l == "self.next_cmc" and a.op == "<=") or \
+                        (r == "self.next_cmc" and a.op == ">="):
+                    late = True
+    col.add(rule, cba, "ids below the next expected id raise", late,
+            "" if late else "a chunk whose id is below the next expected id "
+            "of its minishard is not refused at store time (ids in a "
+            "minishard index must be strictly increasing)")
+    rets = [norm(s.value) for s in stmts_of(cba.node)
+            if isinstance(s, ast.Return) and s.value is not None]
+    ok = rets in (["self.next_cmc == %s" % cba.params[-1]],
+                  ["%s == self.next_cmc" % cba.params[-1]])
+    col.add(rule, cba, "appendable iff id == next expected id", ok,
+            "" if ok else "can_be_appended returns `%s`" % rets,
+            undecided=not ok and len(rets) != 1)
+    # 2. reader: the walked id must equal the requested id before any read
+    rd = repo.func("sharded_base", "ReadableMiniShardCMC.fetch_cmc_chunk")
+    cfg = rd.cfg()
+    owner = enclosing_stmt_map(rd.node)
+    reads = [c for c in calls_in(rd.node) if isinstance(c.func, ast.Attribute)
+             and c.func.attr == "read_bytes"]
+    cmc = rd.params[-1]
+    eq_guards = []
+    for g, atoms in raise_guards(rd.node):
+        for a in atoms:
+            if a.op == "==" and cmc in (norm(a.left), norm(a.right)):
+                eq_guards.append(cfg.node_of(g))
+    ok = bool(reads) and bool(eq_guards) and all(
+        cfg.every_path_passes(cfg.entry, cfg.node_of(owner.get(id(c))),
+                              eq_guards) for c in reads)
+    col.add(rule, rd, "id found in the index equals the requested id before "
+            "any byte is read", ok, "" if ok else
+            "the reader does not refuse an id that is absent from the "
+            "minishard index: a never-stored chunk is answered with a "
+            "neighbour's bytes")
+    walk = [s for s in stmts_of(rd.node) if isinstance(s, ast.While)]
+    okw = bool(walk) and norm(walk[0].test) in ("idx_tally < %s" % cmc,
+                                                "%s > idx_tally" % cmc)
+    col.add(rule, rd, "walk while cumulative id < requested id", okw,
+            "" if okw else "index walk condition is `%s`"
+            % (norm(walk[0].test) if walk else "-"), undecided=not walk)
+    ini = repo.func("sharded_base", "ReadableMiniShardCMC.__init__")
+    ok3 = False
+    for g, atoms in raise_guards(ini.node):
+        for a in atoms:
+            if "% 3" in norm(a.left) and a.op == "==" and norm(a.right) == "0":
+                ok3 = True
+    col.add(rule, ini, "index length must be a multiple of 3", ok3,
+            "" if ok3 else "a minishard index whose length is not a multiple "
+            "of three words is not refused")
+    # 3. the shard index written at offset 0 has exactly the placeholder's
+    #    length: too many entries raise, too few are padded with a strict <
+    cl = repo.func("sharded_file_accessor", "Shard.close")
+    pads = [s for s in stmts_of(cl.node) if isinstance(s, ast.While)
+            and "sh_idx_len" in norm(s.test)]
+    if not pads:
+        col.add(rule, cl, "index padded to its full length", True,
+                "padding loop not in the recognised form", undecided=True)
+    else:
+        t = pads[0].test
+        ok = isinstance(t, ast.Compare) and isinstance(t.ops[0], ast.Lt) and \
+            norm(t.left) == "sh_idx_len" and \
+            "minishard_bits" in norm(t.comparators[0]) and \
+            "16" in norm(t.comparators[0])
+        col.add(rule, cl, "while %s" % norm(t), ok, "" if ok else
+                "padding continues while `%s`: one entry too many makes the "
+                "index longer than its placeholder and the first bytes of "
+                "chunk data are overwritten" % norm(t))
+        upd = any(isinstance(s, ast.Assign) and norm(s.targets[0]) ==
+                  "sh_idx_len" and norm(s.value) == "len(sh_idx_buf)"
+                  for s in pads[0].body)
+        col.add(rule, cl, "length re-measured in the padding loop", upd,
+                "" if upd else "padding loop does not re-measure the index",
+                undecided=not upd)
+    too_many = False
+    for g, atoms in raise_guards(cl.node):
+        for a in atoms:
+            if norm(a.left) == "sh_idx_len" and a.op in ("<", "<=") and \
+                    "minishard_bits" in norm(a.right):
+                too_many = True
+    col.add(rule, cl, "more entries than minishards raise", too_many,
+            "" if too_many else "an index longer than 2**minishard_bits "
+            "entries is written over the start of the chunk data")
